@@ -5,3 +5,4 @@ import Props.C11
 import Props.C12
 import Props.C14
 import Props.C15
+import Props.C19
